@@ -50,6 +50,7 @@ var frameChecks = []*FrameCheck{
 	{Name: "escrow-accounts-blocked", Props: []string{"C04", "C10"}, Packages: []string{modPfx + "app"}, Run: frameBlocked},
 	{Name: "queries-are-read-only", Props: []string{"C20", "C17"}, Packages: keeperPkgs, Run: frameReadOnlyQueries},
 	{Name: "locked-efund-writers", Props: []string{"C05", "C04"}, Packages: consensusPkgs, Run: frameLockedWriters},
+	{Name: "fee-decorators-are-read-only", Props: []string{"C14", "C06"}, Packages: consensusPkgs, Run: frameFeeDecoratorsReadOnly},
 	{Name: "store-reached-only-through-key-builders", Props: []string{"C18"}, Packages: keeperPkgs, Run: frameStoreKeys},
 }
 
@@ -229,6 +230,12 @@ func frameNondeterminism(p *Program, cs *ContractSet) []*FrameResult {
 					if _, isMap := x.X.Type().Underlying().(*types.Map); isMap {
 						if _, ok := allowed(fn, "map-range"); !ok {
 							mapRanges = append(mapRanges, fmt.Sprintf("%s ranges over a map at %s", shortFn(fn.String()), posOf(p, in)))
+						} else {
+							// an allowed map range must stay free of order-dependent effects: nothing inside the loop may take
+							// the sdk.Context (store access, gas, events) or call through a keeper interface
+							for _, bad := range mapLoopEffects(p, fn, x) {
+								mapRanges = append(mapRanges, bad)
+							}
 						}
 					}
 				}
@@ -521,6 +528,13 @@ func storeWriters(p *Program) map[string]bool {
 				if strings.Contains(c.callee, "KVStore") && (m == "Set" || m == "Delete") {
 					direct[fn.String()] = true
 				}
+				// calls through a keeper interface declared by a module (WrkchainKeeper, EnterpriseKeeper ...) reach the
+				// concrete keepers wired in app.go: follow them into every keeper that has a method of that name
+				if strings.Contains(c.callee, modPfx) && strings.Contains(c.callee, "Keeper") {
+					for _, kp := range keeperPkgs {
+						calls[fn.String()] = append(calls[fn.String()], "("+kp+".Keeper)."+m)
+					}
+				}
 				if strings.Contains(c.callee, "BankKeeper") && (strings.HasPrefix(m, "Send") || strings.HasPrefix(m, "Mint") || strings.HasPrefix(m, "Burn") || strings.HasPrefix(m, "Delegate") || strings.HasPrefix(m, "Undelegate")) {
 					direct[fn.String()] = true
 				}
@@ -723,4 +737,63 @@ func copiesAllOfMaccPerms(fn *ssa.Function) bool {
 		}
 	}
 	return ranges && updates
+}
+
+// mapLoopEffects lists the calls inside the loop driven by the map iterator rng that could make the visiting
+// order observable (gas, store reads and writes, events all need the sdk.Context; keepers are reached through interfaces).
+func mapLoopEffects(p *Program, fn *ssa.Function, rng *ssa.Range) []string {
+	li := findLoops(fn)
+	var header *ssa.BasicBlock
+	for h := range li.headers {
+		for _, in := range h.Instrs {
+			if nx, ok := in.(*ssa.Next); ok && nx.Iter == rng {
+				header = h
+			}
+		}
+	}
+	if header == nil {
+		return []string{fmt.Sprintf("%s: loop of the map range at %s not found", shortFn(fn.String()), posOf(p, rng))}
+	}
+	var bad []string
+	for b := range li.body[header] {
+		for _, in := range b.Instrs {
+			ci, ok := in.(ssa.CallInstruction)
+			if !ok {
+				continue
+			}
+			com := ci.Common()
+			if com.IsInvoke() {
+				if com.Method.Name() == "Error" && len(com.Args) == 0 {
+					continue
+				}
+				bad = append(bad, fmt.Sprintf("%s calls %s.%s inside a map range at %s (visiting order would become observable through gas/state)", shortFn(fn.String()), shortFn(com.Value.Type().String()), com.Method.Name(), posOf(p, in)))
+				continue
+			}
+			for _, a := range com.Args {
+				if strings.HasSuffix(a.Type().String(), "cosmos-sdk/types.Context") {
+					bad = append(bad, fmt.Sprintf("%s passes the sdk.Context to a call inside a map range at %s", shortFn(fn.String()), posOf(p, in)))
+				}
+			}
+		}
+	}
+	sort.Strings(bad)
+	return bad
+}
+
+// The WRKChain and BEACON fee decorators only check: a transaction they reject, or that fails later, must not have
+// changed module state through them (C14).  (The enterprise decorator does write - the fee unlock - and is under contract.)
+func frameFeeDecoratorsReadOnly(p *Program, cs *ContractSet) []*FrameResult {
+	w := storeWriters(p)
+	var bad []string
+	n := 0
+	for _, fn := range repoFuncsIn(p, []string{modPfx + "x/wrkchain/ante", modPfx + "x/beacon/ante", modPfx + "x/wrkchain/exported", modPfx + "x/beacon/exported"}) {
+		n++
+		if w[fn.String()] {
+			bad = append(bad, fmt.Sprintf("%s can reach a store or bank write", shortFn(fn.String())))
+		}
+	}
+	if n == 0 {
+		bad = append(bad, "no fee decorator function found")
+	}
+	return []*FrameResult{res("fee-decorators-never-write", fmt.Sprintf("none of the %d functions of the wrkchain/beacon ante and exported packages can reach KVStore.Set/Delete or a bank mutator, through static calls or keeper interfaces", n), bad)}
 }
